@@ -311,7 +311,8 @@ CHECK = {
     "props": "Props/C16.v",
     "theorems": ["c16_labels", "c16_label_index", "c16_eq", "c16_hash", "c16_hash_inj", "c16_order_rfc4034", "c16_order_total",
                  "c16_order_eq_consistent", "c16_subdomain", "c16_is_root", "c16_text_accepts", "c16_display",
-                 "c16_text_roundtrip", "c16_builder_partial", "c16_builder_finish"],
+                 "c16_text_roundtrip", "c16_builder_partial", "c16_builder_finish", "c16_superdomain", "c16_lowercase",
+                 "c16_lowercase_idempotent", "c16_is_wildcard"],
     "allowed_axioms": [],
     "suites": [{
         "name": "names", "impl_bin": "impl_c16", "extract": "Extract/ExC16.v", "driver": "run_c16.ml",
@@ -342,8 +343,17 @@ CHECK = {
 }
 
 MANIFEST = {
-    "level_text": "see docs/C16.md",
-    "level_note": "",
+    "level_text": ("Coq theorems (no axioms) on a panic-faithful model of src/name/{mod,label,builder,lowercase}.rs: FromStr accepts exactly "
+                   "the ASCII texts that denote (declarative RFC 1035/4343 unescape-and-split relation) an absolute name with labels 1..63 and "
+                   "wire <= 255, Display output denotes the name and parses back to the identical value for every well-formed name; == is "
+                   "equality of lower-cased label lists; equal names feed equal (and unequal names different) octet streams to the Hasher; Ord "
+                   "is the RFC 4034 §6.1 lexicographic order on reversed lower-cased labels, a total order consistent with ==; "
+                   "eq_or_subdomain_of/superdomain/Index/make_ascii_lowercase/is_root/is_wildcard equal one-line list functions; NameBuilder "
+                   "try_push/next_label/finish keep the name limits and never panic. Tied to the crate by a differential run (~92k cases quick) "
+                   "with an independent executable oracle on every implementation output."),
+    "level_note": ("Partial: try_push_slice/finish_with_suffix have no theorem; the acceptance theorem is for ASCII texts (non-ASCII rejection "
+                   "is differential only); the executable text oracle is not proved equal to the relation. Trusted: Coq kernel, extraction, the "
+                   "hand-written model's correspondence (differentially tested), SipHash, the unsafe DST allocation."),
     "technique": "machine-checked proof in Coq + model/implementation correspondence check",
     "design_ref": "DESIGN.md §4 C16",
 }
